@@ -34,12 +34,18 @@ MANIFEST = dict(
          "supplied plus the library's fixed ceilings.",
     note="Trusted: Lean kernel, model XmpModel/MixLoop.lean, translator, allocator wrapper, thresholds (cpu <= 10 s + 2 us/byte; peak heap "
          "<= 48 MiB + 64 x bytes and single request <= 8 MiB + 64 x bytes for plain modules, <= 2.2 x LIBXMP_DEPACK_LIMIT + 256 MiB for packed inputs). Scan / set_position / "
-         "tick-size / sample-allocation bounds are proved under C18, C17, C16, C20.",
+         "tick-size / sample-allocation bounds are proved under C18, C17, C16, C20 and re-exported in C02's vocabulary "
+         "(Xmp.C02.C02_next_order_terminates, C02_play_frame_returns, C02_set_position_terminates, C02_scan_terminates, "
+         "C02_ticksize_bound, C02_sample_alloc_le), so this check's build and axiom audit cover their whole import closure; their "
+         "model-to-code ties remain those of the owning checks (C16/C17/C18/C20).",
     technique="Lean 4 proof of loop/growth bounds + generated ceiling list + measured CPU/heap search",
     design_ref="DESIGN.md section 4 C02",
 )
 REQUIRED = ["Xmp.MixLoop.C02_mixer_iterations", "Xmp.MixLoop.C02_mixer_samples", "Xmp.MixLoop.C02_grow_capped",
-            "Xmp.MixLoop.C02_depack_limit_sites", "Xmp.MixLoop.C02_depack_limit_value"]
+            "Xmp.MixLoop.C02_depack_limit_sites", "Xmp.MixLoop.C02_depack_limit_value",
+            # termination / size theorems re-exported from their owners (C16, C17, C18, C20) in C02's vocabulary
+            "Xmp.C02.C02_next_order_terminates", "Xmp.C02.C02_play_frame_returns", "Xmp.C02.C02_set_position_terminates",
+            "Xmp.C02.C02_scan_terminates", "Xmp.C02.C02_ticksize_bound", "Xmp.C02.C02_sample_alloc_le"]
 
 PACKED_EXT = (".gz", ".bz2", ".xz", ".zip", ".lha", ".lzh", ".z", ".arc", ".lzx", ".mmcmp", ".pp", ".xpk", ".sqsh", ".itz",
               ".mdz", ".s3z", ".xmz", ".j2b", ".muse", ".s404", ".arcfs", ".spark", ".zst", ".7z", ".rar", ".mo3")
